@@ -36,6 +36,10 @@ class SkipPoint(BaseException):
     """float mode: the sampled point violates an assumption"""
 
 
+class HarnessError(BaseException):
+    """a bug in the checker itself (never reported as a property violation)"""
+
+
 # ---------------------------------------------------------------------------
 # fraction normal form  num / prod(den_k ^ e_k), all parts division free
 
@@ -333,6 +337,10 @@ def _atom_eval(name, params, args):
         return math.atanh(x)
     if name == 'pow':
         return x ** args[1]
+    if name == 'clog_re':
+        return math.log(math.hypot(x, args[1]))
+    if name == 'clog_im':
+        return math.atan2(args[1], x)
     if name == 'erf':
         return float(sp.erf(x))
     if name == 'erfi':
@@ -389,7 +397,7 @@ class Ctx(object):
     def __init__(self, mode='sym', prefix=(), assignment=None, opts=None):
         self.mode = mode
         self.prefix = list(prefix)
-        self.assignment = assignment or {}
+        self.assignment = assignment if assignment is not None else {}
         self.opts = opts or {}
         self.assumptions = []       # BoolSym preconditions
         self.path = []              # BoolSym literals taken
@@ -403,6 +411,7 @@ class Ctx(object):
         self.outs = []              # (label, value) for translation validation
         self.atomdefs = {}
         self.atomdefs2 = {}
+        self.atomdefs_c = {}
         self.vars = {}
         self.var_order = []
         self.notes = []
@@ -415,7 +424,7 @@ class Ctx(object):
     def var(self, name, lo=None, hi=None, pos=False, nonzero=False):
         if self.mode == 'float':
             if name not in self.assignment:
-                raise KeyError('no value for variable %s' % name)
+                raise HarnessError('no value for variable %s' % name)
             return float(self.assignment[name])
         v = S.var(name)
         if name not in self.vars:
@@ -458,6 +467,16 @@ class Ctx(object):
     def define_atom2(self, name, a, b, value):
         if self.mode == 'sym':
             self.atomdefs2[(name, a.id, b.id)] = value
+
+    def define_atom_c(self, name, arg, value):
+        if self.mode == 'sym':
+            self.atomdefs_c[(name, arg.re.id, arg.im.id)] = value
+
+    def cvar(self, name):
+        re, im = self.var(name + '.re'), self.var(name + '.im')
+        if self.mode == 'sym':
+            return SymC(re, im)
+        return complex(re, im)
 
     def atom_value(self, name, arg):
         return self.atomdefs.get((name, arg.id))
